@@ -80,7 +80,7 @@ impl S3 for FileSystem {
         let dst_path = self.get_object_path(&input.bucket, &input.key)?;
 
         if src_path.exists().not() {
-            return Err(s3_error!(NoSuchKey));
+            return Err(self.not_found_error(bucket));
         }
 
         if self.get_bucket_path(&input.bucket)?.exists().not() {
@@ -223,7 +223,10 @@ impl S3 for FileSystem {
         let input = req.input;
         let object_path = self.get_object_path(&input.bucket, &input.key)?;
 
-        let mut file = fs::File::open(&object_path).await.map_err(|e| s3_error!(e, NoSuchKey))?;
+        let mut file = match fs::File::open(&object_path).await {
+            Ok(file) => file,
+            Err(_) => return Err(self.not_found_error(&input.bucket)),
+        };
 
         let file_metadata = try_!(file.metadata().await);
         let last_modified = Timestamp::from(try_!(file_metadata.modified()));
@@ -657,7 +660,10 @@ impl S3 for FileSystem {
         let src_path = self.get_object_path(src_bucket, src_key)?;
         let dst_path = self.resolve_upload_part_path(upload_id, part_number)?;
 
-        let mut src_file = fs::File::open(&src_path).await.map_err(|e| s3_error!(e, NoSuchKey))?;
+        let mut src_file = match fs::File::open(&src_path).await {
+            Ok(file) => file,
+            Err(_) => return Err(self.not_found_error(src_bucket)),
+        };
         let file_len = try_!(src_file.metadata().await).len();
 
         let (start, end) = if let Some(copy_range) = &input.copy_source_range {
